@@ -35,6 +35,14 @@ def SimFields (fns : List FnDef) (P : Prog) (n : Nat) : Prop :=
       ∃ σ1, ExecC P σ code t (.normal σ1) ∧ σ1 (.t k) = .recd (pre ++ fs) ∧ Agree env' σ1 ∧ Frame k σ σ1) ∧
     (∀ t v, evalInts fns n env es = ⟨t, .ret v⟩ → ExecC P σ code t (.returned v))
 
+/-- the parts of an f-string: `acc` (a temporary below the counter) holds the text so far -/
+def SimParts (fns : List FnDef) (P : Prog) (n : Nat) : Prop :=
+  ∀ (ps : Parts) (env : Env) (k c : Nat) (code : Code) (c' : Nat) (σ : Store) (acc : String),
+    lowerParts ps (.t k) c = some (code, c') → Agree env σ → k < c → σ (.t k) = .str acc →
+    (∀ t env' s, evalParts fns n env ps = ⟨t, .ok (env', s)⟩ →
+      ∃ σ1, ExecC P σ code t (.normal σ1) ∧ σ1 (.t k) = .str (acc ++ s) ∧ Agree env' σ1 ∧ Frame k σ σ1) ∧
+    (∀ t v, evalParts fns n env ps = ⟨t, .ret v⟩ → ExecC P σ code t (.returned v))
+
 /-- the arguments of an enum constructor: every one materialised in a temporary -/
 def SimCtor (fns : List FnDef) (P : Prog) (n : Nat) : Prop :=
   ∀ (es : Exprs) (env : Env) (c : Nat) (code : Code) (xs : List Var) (c' : Nat) (σ : Store),
@@ -121,7 +129,7 @@ theorem SimE.ret {fns P n} (hE : SimE fns P n) {e env c code value c1 σ t v}
 theorem R.ok_eq {α} (a : α) : (R.ok a : R α) = ⟨[], .ok a⟩ := rfl
 
 theorem simE_step {fns P n} (hE : SimE fns P n) (hA : SimArgs fns P n) (hF : SimFields fns P n) (hB : SimBlock fns P n)
-    (hW : SimWhile fns P n) (hC : SimChain fns P n) (hK : SimCtor fns P n) (hP : ProgOk fns P) :
+    (hW : SimWhile fns P n) (hC : SimChain fns P n) (hK : SimCtor fns P n) (hS : SimParts fns P n) (hP : ProgOk fns P) :
     SimE fns P (n + 1) := by
   intro e env c code value c' σ hl ha
   cases e with
@@ -1072,7 +1080,28 @@ theorem simE_step {fns P n} (hE : SimE fns P n) (hA : SimArgs fns P n) (hF : Sim
         | recd fs => cases hfi : fs[i]? <;> simp [hfi, pure_eq, R.ok, R.stuck] at h2'
         | _ => simp [R.stuck] at h2'
   | list es => simp [lowerE] at hl
-  | fstr ps => simp [lowerE] at hl
+  | fstr ps =>
+    simp [lowerE, Option.bind_eq_some_iff] at hl
+    obtain ⟨cp, c1, h1, rfl, rfl, rfl⟩ := hl
+    have m1 := lowerParts_mono ps _ _ cp c1 h1
+    have h0 : ExecS P σ (.assign (.t c) (.const (.str ""))) [] (.normal (σ.set (.t c) (.str ""))) :=
+      .assign (.pure (by simp [evalValue]))
+    have hS' := hS ps env c (c + 1) cp c1 (σ.set (.t c) (.str "")) "" h1 (ha.set_tmp _ _) (by omega) (by simp)
+    constructor
+    · intro t env' w h
+      simp only [evalExpr, bind_eq, bind_ok_iff] at h
+      obtain ⟨t1, ⟨env1, str⟩, t2, hparts, h2', rfl⟩ := h
+      simp [pure_eq, R.ok] at h2'
+      obtain ⟨rfl, rfl, rfl⟩ := h2'
+      obtain ⟨σ1, hx1, hv1, ha1, hf1⟩ := hS'.1 t1 env1 str hparts
+      refine ⟨σ1, t1, [], ?_, .pure (by simp [evalValue, hv1]), by simp, ha1,
+        (Frame.set_tmp σ _ (Nat.le_refl c)).trans hf1 (Nat.le_refl _)⟩
+      simpa using ExecC.cons h0 hx1
+    · intro t w h
+      simp only [evalExpr, bind_eq, bind_ret_iff] at h
+      rcases h with h | ⟨t1, ⟨env1, str⟩, t2, hparts, h2', rfl⟩
+      · simpa using ExecC.cons h0 (hS'.2 t w h)
+      · simp [pure_eq, R.ok] at h2'
 
 
 theorem simArgs_step {fns P n} (hE : SimE fns P n) (hA : SimArgs fns P n) : SimArgs fns P (n + 1) := by
@@ -1381,6 +1410,102 @@ theorem simCtor_step {fns P n} (hE : SimE fns P n) (hK : SimCtor fns P n) : SimC
           · simp [pure_eq, R.ok] at h4
         | _ => simp [R.stuck] at h2'
 
+theorem simParts_step {fns P n} (hE : SimE fns P n) (hS : SimParts fns P n) : SimParts fns P (n + 1) := by
+  intro ps env k c code c' σ acc hl ha hk hσ
+  cases ps with
+  | nil =>
+    simp [lowerParts] at hl; obtain ⟨rfl, rfl⟩ := hl
+    constructor
+    · intro t env' s h
+      simp [evalParts, R.ok] at h
+      obtain ⟨rfl, rfl, rfl⟩ := h
+      exact ⟨σ, .nil, by simpa using hσ, ha, Frame.refl _ _⟩
+    · intro t v h; simp [evalParts, R.ok] at h
+  | str lit rest =>
+    simp [lowerParts, Option.bind_eq_some_iff] at hl
+    obtain ⟨cr, h1, rfl⟩ := hl
+    have hne : Var.t k ≠ .t c := by intro h; cases h; omega
+    have s1 : ExecS P σ (.assign (.t c) (.const (.str lit))) [] (.normal (σ.set (.t c) (.str lit))) :=
+      .assign (.pure (by simp [evalValue]))
+    have s2 : ExecS P (σ.set (.t c) (.str lit)) (.assign (.t k) (.append (.t k) (.t c))) []
+        (.normal ((σ.set (.t c) (.str lit)).set (.t k) (.str (acc ++ lit)))) :=
+      .assign (.pure (by simp [evalValue, set_other _ _ hne, hσ]))
+    have hS' := hS rest env k (c + 1) cr c' ((σ.set (.t c) (.str lit)).set (.t k) (.str (acc ++ lit))) (acc ++ lit) h1
+      ((ha.set_tmp _ _).set_tmp _ _) (by omega) (by simp)
+    have hfr : Frame k σ ((σ.set (.t c) (.str lit)).set (.t k) (.str (acc ++ lit))) :=
+      (Frame.set_tmp σ _ (by omega)).trans (Frame.set_tmp _ _ (Nat.le_refl _)) (Nat.le_refl _)
+    constructor
+    · intro t env' s h
+      simp only [evalParts, bind_eq, bind_ok_iff] at h
+      obtain ⟨t1, ⟨env1, rest'⟩, t2, hr, h2', rfl⟩ := h
+      simp [pure_eq, R.ok] at h2'
+      obtain ⟨rfl, rfl, rfl⟩ := h2'
+      obtain ⟨σ1, hx1, hv1, ha1, hf1⟩ := hS'.1 t1 env1 rest' hr
+      refine ⟨σ1, ?_, by simpa [String.append_assoc] using hv1, ha1, hfr.trans hf1 (Nat.le_refl _)⟩
+      simpa using ExecC.cons s1 (ExecC.cons s2 hx1)
+    · intro t v h
+      simp only [evalParts, bind_eq, bind_ret_iff] at h
+      rcases h with h | ⟨t1, ⟨env1, rest'⟩, t2, hr, h2', rfl⟩
+      · simpa using ExecC.cons s1 (ExecC.cons s2 (hS'.2 t v h))
+      · simp [pure_eq, R.ok] at h2'
+  | expr e rest =>
+    simp [lowerParts, Option.bind_eq_some_iff] at hl
+    obtain ⟨ce, ve, c1, h1, cr, h2, rfl⟩ := hl
+    have ⟨m1, _⟩ := lowerE_mono e c ce ve c1 h1
+    have hne1 : Var.t k ≠ .t c1 := by intro h; cases h; omega
+    have hne2 : Var.t k ≠ .t (c1 + 1) := by intro h; cases h; omega
+    constructor
+    · intro t env' s h
+      simp only [evalParts, bind_eq, bind_ok_iff] at h
+      obtain ⟨t1, ⟨env1, v⟩, t2, hel, h2', rfl⟩ := h
+      cases hd : display v with
+      | none => simp [hd, R.stuck] at h2'
+      | some sv =>
+        simp only [hd, bind_eq, bind_ok_iff] at h2'
+        obtain ⟨t3, ⟨env2, rest'⟩, t4, hr, h4, rfl⟩ := h2'
+        simp [pure_eq, R.ok] at h4
+        obtain ⟨rfl, rfl, rfl⟩ := h4
+        obtain ⟨σ1, hx1, ha1, hf1⟩ := hE.store h1 ha hel (.t c1)
+        have hk1 : σ1 (.t k) = .str acc := by rw [hf1 k hk, hσ]
+        have s2 : ExecS P (σ1.set (.t c1) v) (.assign (.t (c1 + 1)) (.toStr (.t c1))) []
+            (.normal ((σ1.set (.t c1) v).set (.t (c1 + 1)) (.str sv))) :=
+          .assign (.pure (by simp [evalValue, hd]))
+        have s3 : ExecS P ((σ1.set (.t c1) v).set (.t (c1 + 1)) (.str sv)) (.assign (.t k) (.append (.t k) (.t (c1 + 1)))) []
+            (.normal (((σ1.set (.t c1) v).set (.t (c1 + 1)) (.str sv)).set (.t k) (.str (acc ++ sv)))) :=
+          .assign (.pure (by simp [evalValue, set_other _ _ hne1, set_other _ _ hne2, hk1]))
+        obtain ⟨σ2, hx2, hv2, ha2, hf2⟩ := (hS rest env1 k (c1 + 2) cr c'
+          (((σ1.set (.t c1) v).set (.t (c1 + 1)) (.str sv)).set (.t k) (.str (acc ++ sv))) (acc ++ sv) h2
+          (((ha1.set_tmp _ _).set_tmp _ _).set_tmp _ _) (by omega) (by simp)).1 t3 env2 rest' hr
+        refine ⟨σ2, ?_, by simpa [String.append_assoc] using hv2, ha2, ?_⟩
+        · have := ExecC.append hx1 (ExecC.cons s2 (ExecC.cons s3 hx2))
+          simpa [List.append_assoc] using this
+        · exact ((((hf1.mono (by omega)).trans (Frame.set_tmp _ _ (by omega)) (Nat.le_refl _)).trans
+            (Frame.set_tmp _ _ (by omega)) (Nat.le_refl _)).trans (Frame.set_tmp _ _ (Nat.le_refl _)) (Nat.le_refl _)).trans hf2 (Nat.le_refl _)
+    · intro t w h
+      simp only [evalParts, bind_eq, bind_ret_iff] at h
+      rcases h with h | ⟨t1, ⟨env1, v⟩, t2, hel, h2', rfl⟩
+      · have := hE.ret h1 ha h
+        simpa [List.append_assoc] using ExecC.append_ret _ this
+      · cases hd : display v with
+        | none => simp [hd, R.stuck] at h2'
+        | some sv =>
+          simp only [hd, bind_eq, bind_ret_iff] at h2'
+          rcases h2' with h | ⟨t3, ⟨env2, rest'⟩, t4, hr, h4, rfl⟩
+          · obtain ⟨σ1, hx1, ha1, hf1⟩ := hE.store h1 ha hel (.t c1)
+            have hk1 : σ1 (.t k) = .str acc := by rw [hf1 k hk, hσ]
+            have s2 : ExecS P (σ1.set (.t c1) v) (.assign (.t (c1 + 1)) (.toStr (.t c1))) []
+                (.normal ((σ1.set (.t c1) v).set (.t (c1 + 1)) (.str sv))) :=
+              .assign (.pure (by simp [evalValue, hd]))
+            have s3 : ExecS P ((σ1.set (.t c1) v).set (.t (c1 + 1)) (.str sv)) (.assign (.t k) (.append (.t k) (.t (c1 + 1)))) []
+                (.normal (((σ1.set (.t c1) v).set (.t (c1 + 1)) (.str sv)).set (.t k) (.str (acc ++ sv)))) :=
+              .assign (.pure (by simp [evalValue, set_other _ _ hne1, set_other _ _ hne2, hk1]))
+            have hr' := (hS rest env1 k (c1 + 2) cr c'
+              (((σ1.set (.t c1) v).set (.t (c1 + 1)) (.str sv)).set (.t k) (.str (acc ++ sv))) (acc ++ sv) h2
+              (((ha1.set_tmp _ _).set_tmp _ _).set_tmp _ _) (by omega) (by simp)).2 t2 w h
+            have := ExecC.append hx1 (ExecC.cons s2 (ExecC.cons s3 hr'))
+            simpa [List.append_assoc] using this
+          · simp [pure_eq, R.ok] at h4
+
 theorem simSeq_step {fns P n} (hE : SimE fns P n) (hS : SimSeq fns P n) : SimSeq fns P (n + 1) := by
   intro b env c code x c' σ hl ha
   cases b with
@@ -1517,9 +1642,9 @@ theorem simWhile_step {fns P n} (hE : SimE fns P n) (hB : SimBlock fns P n) (hW 
 
 theorem sim_all (fns : List FnDef) (P : Prog) (hP : ProgOk fns P) :
     ∀ n, SimE fns P n ∧ SimArgs fns P n ∧ SimSeq fns P n ∧ SimBlock fns P n ∧ SimWhile fns P n ∧ SimFields fns P n ∧ SimChain fns P n
-      ∧ SimCtor fns P n
+      ∧ SimCtor fns P n ∧ SimParts fns P n
   | 0 => by
-    refine ⟨?_, ?_, ?_, ?_, ?_, ?_, ?_, ?_⟩
+    refine ⟨?_, ?_, ?_, ?_, ?_, ?_, ?_, ?_, ?_⟩
     · intro e env c code value c' σ _ _
       exact ⟨fun t env' v h => by simp [evalExpr, R.fuel] at h, fun t v h => by simp [evalExpr, R.fuel] at h⟩
     · intro es env c code tmps c' σ _ _
@@ -1536,10 +1661,12 @@ theorem sim_all (fns : List FnDef) (P : Prog) (hP : ProgOk fns P) :
       exact ⟨fun t env' r h => by simp [evalArms, R.fuel] at h, fun t w h => by simp [evalArms, R.fuel] at h⟩
     · intro es env c code xs c' σ _ _
       exact ⟨fun t env' v h => by simp [evalInts, R.fuel] at h, fun t v h => by simp [evalInts, R.fuel] at h⟩
+    · intro ps env k c code c' σ acc _ _ _ _
+      exact ⟨fun t env' v h => by simp [evalParts, R.fuel] at h, fun t v h => by simp [evalParts, R.fuel] at h⟩
   | n + 1 => by
-    obtain ⟨hE, hA, hS, hB, hW, hF, hC, hK⟩ := sim_all fns P hP n
-    exact ⟨simE_step hE hA hF hB hW hC hK hP, simArgs_step hE hA, simSeq_step hE hS, simBlock_step hS, simWhile_step hE hB hW,
-      simFields_step hE hF, simChain_step hE hB hC, simCtor_step hE hK⟩
+    obtain ⟨hE, hA, hS, hB, hW, hF, hC, hK, hT⟩ := sim_all fns P hP n
+    exact ⟨simE_step hE hA hF hB hW hC hK hT hP, simArgs_step hE hA, simSeq_step hE hS, simBlock_step hS, simWhile_step hE hB hW,
+      simFields_step hE hF, simChain_step hE hB hC, simCtor_step hE hK, simParts_step hE hT⟩
 
 
 /-! ### the structured MIR is deterministic -/
